@@ -27,6 +27,24 @@ def _cells_equal(ctx, name, got_levels, ref_levels, what):
             raise Violation(name, "%s on level %d: extra %r, missing %r" % (what, l, sorted(g - r)[:4], sorted(r - g)[:4]))
 
 
+def check_disparity(ref, ctx, spec, L):
+    """No active function of level k is nonzero on an active cell of level > k + d (finite disparity, default marking)."""
+    d = spec["disparity"]
+    if d is None:
+        return
+    for k in range(L):
+        deep = [(l, c) for l in range(k + d + 1, L) for c in ref.active[l]]
+        if not deep:
+            continue
+        anc = set(ref.ancestor(c, l - k) for l, c in deep)
+        act, _ = ref.functions(k)
+        for jj in act:
+            hit = ref.func_cells(k, jj) & anc
+            if hit:
+                raise Violation("disparity", "active function %r of level %d is nonzero on an active cell of level > %d (inside its "
+                                "level-%d cell %r) although disparity=%d" % (jj, k, k + d, k, sorted(hit)[0], d))
+
+
 def check_state(hs, ref, ctx, spec, full=True):
     dim = ref.dim
     L = ref.trimmed_levels()
@@ -63,6 +81,7 @@ def check_state(hs, ref, ctx, spec, full=True):
     flatc = [(int(l), tuple(int(x) for x in c)) for l, c in hs.active_cells(flat=True)]
     ctx.equal("canonical_order_cells", flatc, ref.canonical_cells(L), "active_cells(flat=True)")
     if not full:
+        check_disparity(ref, ctx, spec, L)
         return
     n = hs.numdofs
     # 5./6. representation matrix and linear independence
@@ -93,15 +112,7 @@ def check_state(hs, ref, ctx, spec, full=True):
     ctx.require("ref_consistency", res < 1e-10, "reference THB functions not in the HB span (%g)" % res)
     ctx.close("thb_to_hb", Td, Tref, rtol=0, atol=1e-9)
     # 9. disparity bound
-    d = spec["disparity"]
-    if d is not None and spec.get("default_marking", True):
-        for (k, jj) in ref.canonical_functions(L):
-            fc = ref.func_cells(k, jj)
-            for l in range(k + d + 1, L):
-                for c in ref.active[l]:
-                    if ref.ancestor(c, l - k) in fc:
-                        raise Violation("disparity", "active function %r of level %d is nonzero on active cell %r of level %d "
-                                        "(disparity %d)" % (jj, k, c, l, d))
+    check_disparity(ref, ctx, spec, L)
     # 10. incidence matrix
     Z = ctx.sut(hs.incidence_matrix, what="incidence_matrix")
     funcs = ref.canonical_functions(L)
@@ -292,6 +303,67 @@ def check_enum(spec, ctx):
     ctx.nontrivial = calls >= 2 or multilevel or added
 
 
+def check_deep(spec, ctx):
+    """Point-directed refinement: repeatedly refine the finest active cell containing a generic point (and sometimes a
+    neighbour), which builds deep hierarchies (up to 8 levels in 1D) where the disparity-preserving marking has to
+    propagate over several hops."""
+    hs, ref = ctx.sut(gh.make_hspace, spec, what="HSpace")
+    dim = spec["dim"]
+    added = False
+    calls = 0
+    for step in range(spec["depth"]):
+        # finest active cell containing the point
+        L = ref.numlevels()
+        target = None
+        for l in reversed(range(L)):
+            n = ref.ncells(l)
+            c = tuple(min(int(spec["point"][ax] * n[ax]), n[ax] - 1) for ax in range(dim))
+            if c in ref.active[l]:
+                target = (l, c)
+                break
+        if target is None:
+            break
+        l, c = target
+        cells = [c]
+        ex = spec["extra"][step % len(spec["extra"])]
+        if ex:
+            nb = tuple(min(max(ci + e, 0), ref.ncells(l)[ax] - 1) for ax, (ci, e) in enumerate(zip(c, ex)))
+            if nb in ref.active[l] and nb not in cells:
+                cells.append(nb)
+        arg = {l: gh._container(spec["container"], cells)}
+        ret = ctx.sut(hs.refine, arg, what="HSpace.refine")
+        actual = {int(k): [tuple(int(x) for x in cc) for cc in v] for k, v in ret.items() if v}
+        if not set(cells) <= set(actual.get(l, [])):
+            raise Violation("refine_return", "returned cells do not contain the requested ones")
+        if any(set(actual[k]) - (set(cells) if k == l else set()) for k in actual):
+            added = True
+        try:
+            ref.refine(actual)
+        except ValueError as e:
+            raise Violation("refine_inactive_cell", str(e))
+        calls += 1
+        check_state(hs, ref, ctx, spec, full=False)
+    if calls == 0:
+        raise Skip("no call")
+    ctx.flag("dim%d" % dim, "disparity_%s" % spec["disparity"], "levels%d" % ref.trimmed_levels(),
+             "disparity_added_cells" if added else None, "marks_as_" + spec["container"])
+    ctx.nontrivial = calls >= 2
+
+
+@st.composite
+def strat_deep(draw):
+    dim = draw(st.sampled_from([1, 1, 2]))
+    p = draw(st.integers(1, 3))
+    n0 = draw(st.integers(1, 4 if dim == 1 else 2))
+    kvs = [{"p": p, "breaks": [i / n0 for i in range(n0 + 1)], "mults": [1] * (n0 - 1)} for _ in range(dim)]
+    disp = draw(st.sampled_from([1, 2, 2, 3] if dim == 1 else [1, 2, 2]))
+    depth = draw(st.integers(4, 8 if dim == 1 else 5))
+    point = [draw(st.integers(1, 62)) / 63.0 for _ in range(dim)]
+    extra = [draw(st.sampled_from([None, None, [1] * dim, [-1] * dim, [1] + [0] * (dim - 1)])) for _ in range(4)]
+    return {"dim": dim, "kvs": kvs, "disparity": disp, "truncate": draw(st.booleans()), "bdspecs": None, "point": point,
+            "depth": depth, "extra": extra, "container": draw(st.sampled_from(["set", "list", "tuple"])), "max_levels": 10}
+
+
 SUBCHECKS = [
     Sub("enum", check_enum, enum=enum_histories, quick=0, thorough=0, floor=200, timeout_q=400, timeout_t=6000,
         rule="exhaustive: all sequences of <=2 (quick) / <=3 (thorough) refine calls over all non-empty subsets of active cells "
@@ -301,5 +373,8 @@ SUBCHECKS = [
         quick=400, thorough=8000, floor=50, timeout_q=400, timeout_t=6000,
         rule="random histories dims 1-3, p 1-4, disparity {inf,1,2,3}, marks as set/list/tuple, refine_region; invariants "
              "after every step; copy independence"),
+    Sub("deep", check_deep, strategy=lambda tier: strat_deep(), quick=320, thorough=6000, floor=30, timeout_q=400, timeout_t=6000,
+        rule="point-directed refinement up to 8 levels (1D) / 5 levels (2D) with finite disparity 1-3: cells, functions, canonical "
+             "order and the disparity bound after every call (added after seeded change C04)"),
 ]
 KNOWN = {}
